@@ -84,7 +84,7 @@ impl Default for ModelOpts {
     fn default() -> Self {
         ModelOpts {
             strict_periodic: false,
-            cap_hep: 6,
+            cap_hep: 8,
             cap_lp: 2,
         }
     }
